@@ -46,11 +46,56 @@ class Opaque:
         return hash(self.name)
 
 
+PACKAGE = None  # the Repo under analysis: gives the interpreter the package's private helpers and module constants
+
+
+def _package_function(name):
+    """The unique top-level function of the package called `name` (private helpers a refactoring introduced)."""
+    if PACKAGE is None:
+        return None
+    fs = [f for f in PACKAGE.all_funcs() if f.name == name and f.parent is None and f.cls is None]
+    return fs[0] if len(fs) == 1 else None
+
+
+def _package_constant(name):
+    if PACKAGE is None:
+        return None
+    found = []
+    for m in PACKAGE.modules.values():
+        for st in m.tree.body:
+            if isinstance(st, ast.Assign) and any(isinstance(t, ast.Name) and t.id == name for t in st.targets):
+                found.append(st.value)
+    return found[0] if len(found) == 1 else None
+
+
 class Interp:
     def __init__(self, enum_name="Order", stubs=None):
         self.enum = enum_name
         self.stubs = stubs or {}
         self.steps = 0
+        self.depth = 0
+
+    def call_package_function(self, f, args):
+        a = f.node.args
+        names = [x.arg for x in a.posonlyargs + a.args]
+        if len(args) < len(names) - len(a.defaults) or (len(args) > len(names) and not a.vararg) or a.kwonlyargs:
+            raise AnalysisError(f"interpreter: cannot bind the arguments of helper {f.name}")
+        env = dict(zip(names, args))
+        for n, d in zip(names[len(names) - len(a.defaults):], a.defaults):
+            if n not in env:
+                env[n] = self.ev(d, {})
+        if a.vararg:
+            env[a.vararg.arg] = tuple(args[len(names):])
+        self.depth += 1
+        if self.depth > 20:
+            raise AnalysisError("interpreter: helper recursion too deep")
+        try:
+            self.block(f.node.body, env)
+        except _Return as r:
+            return r.value
+        finally:
+            self.depth -= 1
+        return None
 
     def run(self, fnode, env):
         env = dict(env)
@@ -159,6 +204,9 @@ class Interp:
                 return Opaque("NotImplemented")
             if e.id in ("True", "False", "None"):
                 return {"True": True, "False": False, "None": None}[e.id]
+            c = _package_constant(e.id)
+            if c is not None:
+                return self.ev(c, {})
             raise AnalysisError(f"interpreter: unbound name {e.id}")
         if isinstance(e, ast.Attribute):
             d = dotted(e)
@@ -167,6 +215,17 @@ class Interp:
             if d and d.split(".")[-1] in MEMBERS:
                 return d.split(".")[-1]
             raise AnalysisError(f"interpreter: unsupported attribute {d}")
+        if isinstance(e, ast.Dict) and all(k is not None for k in e.keys):
+            return {self.ev(k, env): self.ev(v, env) for k, v in zip(e.keys, e.values)}
+        if isinstance(e, ast.Subscript) and not isinstance(e.slice, ast.Slice):
+            obj = self.ev(e.value, env)
+            idx = self.ev(e.slice, env)
+            if isinstance(obj, (dict, list, tuple, str)):
+                try:
+                    return obj[idx]
+                except (KeyError, IndexError, TypeError) as ex:
+                    raise AnalysisError(f"interpreter: subscript failed: {ex}")
+            raise AnalysisError(f"interpreter: unsupported subscript at line {e.lineno}")
         if isinstance(e, ast.Set):
             return frozenset(self.ev(x, env) for x in e.elts)
         if isinstance(e, ast.Tuple):
@@ -245,6 +304,12 @@ class Interp:
             if fn in ("any", "all") and len(e.args) == 1:
                 vals = self.comp(e.args[0], env) if isinstance(e.args[0], (ast.GeneratorExp, ast.ListComp)) else list(self.ev(e.args[0], env))
                 return any(self.truth(v) for v in vals) if fn == "any" else all(self.truth(v) for v in vals)
+            if fn == "zip" and e.args and not e.keywords:
+                return [tuple(t) for t in zip(*[list(self.ev(a, env)) for a in e.args])]
+            if fn == "enumerate" and len(e.args) == 1:
+                return [tuple(t) for t in enumerate(list(self.ev(e.args[0], env)))]
+            if fn == "range" and 1 <= len(e.args) <= 2:
+                return list(range(*[self.ev(a, env) for a in e.args]))
             if fn == "len" and len(e.args) == 1:
                 return len(self.ev(e.args[0], env))
             if fn == "bool" and len(e.args) == 1:
@@ -266,6 +331,15 @@ class Interp:
             if isinstance(e.func, ast.Attribute) and e.func.attr == "opposite" and not e.args:
                 v = self.ev(e.func.value, env)
                 return {"LESS": "MORE", "MORE": "LESS"}.get(v, v)
+            pf = _package_function(fn) if fn and "." not in fn else None
+            if pf is not None and not e.keywords:
+                args = []
+                for a in e.args:
+                    if isinstance(a, ast.Starred):
+                        args.extend(self.ev(a.value, env))
+                    else:
+                        args.append(self.ev(a, env))
+                return self.call_package_function(pf, args)
             raise AnalysisError(f"interpreter: unsupported call {fn}")
         if isinstance(e, (ast.ListComp, ast.GeneratorExp, ast.SetComp)):
             vals = self.comp(e, env)
